@@ -91,7 +91,7 @@ func run(c *lib.Ctx) error {
 	c.Set("fill_sizes", fillSizes)
 
 	// ---- M
-	depthM := c.Pick(4, 5)
+	depthM := c.Pick(3, 5)
 	mdone := make(chan error, 1)
 	go func() {
 		r, err := c.TLC("MCEqKeys(M)", lib.TLCRun{Dir: s.dir, Module: "MCEqKeys", Workers: 2, Timeout: 20 * time.Minute, Coverage: false,
@@ -311,7 +311,8 @@ func (s *session) generate(b *valpool.Builder) error {
 	elvRuns := 0
 	for pass := 0; pass < c.Pick(1, 2); pass++ {
 		for ii, in := range insts {
-			for bi := ii; bi < len(behs); bi += len(insts) {
+			stride := len(insts) * c.Pick(3, 1) // quick: every third behaviour (which third is seeded)
+			for bi := ii + len(insts)*(int(c.Seed)%c.Pick(3, 1)); bi < len(behs); bi += stride {
 				bh := behs[(bi+pass*3)%len(behs)]
 				F := 0
 				if bh.Fill == 1 {
